@@ -65,7 +65,7 @@ def main():
             prop = meta.get("property", "?")
             confirmed = res.get("demo_clean") == 0 and "69 passed" in res.get("tests", "") and res.get("demo_patched", 0) != 0
             fired = res.get("fired", {})
-            own = [k for k in fired if k.startswith(prop + "/")]
+            own = [k for k in fired if k.startswith(prop + "/") and fired[k]["exit"] == 1]
             compact = "; ".join(f"{k}:{','.join(v['rules'])[:70]}" for k, v in fired.items() if k.endswith("/quick") or k.replace("/thorough", "/quick") not in fired)
             print(f"{d.replace('/tmp/wt/', ''):24} prop={prop} confirmed={confirmed} (clean={res.get('demo_clean')} tests='{res.get('tests', '')[:12]}' patched={res.get('demo_patched')}) "
                   f"own-check={'CAUGHT' if own else 'missed'} | {compact or res.get('error', '')}")
